@@ -195,7 +195,20 @@ static int lazyRounds(const std::string& name, int T, long rounds) {
         GEOSContextHandle_t h = newCtx(); long my = 0;
         for (long i = 0; i < rounds; i++) {
             barrier(my);     // main has built `shared`
-            if (name == "hasz") { if (t % 2) { if (GEOSGeom_getCoordinateDimension_r(h, shared) != 3) bad++; } else { GEOSGeom_getCoordinateDimension_r(h, shared); if (GEOSHasZ_r(h, shared) != 1) bad++; } }
+            if (name == "freshread") {
+                // a big fresh immutable line: every thread's first read-only question arrives while any lazily computed summary
+                // (envelope, flags, caches) of the object would still be under construction
+                const long n = 400000; double x = (double) n - 1.5;
+                GEOSCoordSequence* cs = GEOSCoordSeq_create_r(h, 2, 2); GEOSCoordSeq_setXY_r(h, cs, 0, x, -1.0); GEOSCoordSeq_setXY_r(h, cs, 1, x, 2.0);
+                GEOSGeometry* mine = GEOSGeom_createLineString_r(h, cs);
+                switch (t % 4) {
+                    case 0: if (GEOSIntersects_r(h, shared, mine) != 1) bad++; break;
+                    case 1: if (GEOSDisjoint_r(h, mine, shared) != 0) bad++; break;
+                    case 2: { double v = -1; if (GEOSGeom_getXMax_r(h, shared, &v) != 1 || v != (double) (n - 1)) bad++; double w = -1; if (GEOSGeom_getYMax_r(h, shared, &w) != 1 || w != 1.0) bad++; break; }
+                    default: { double d = -1; if (GEOSDistance_r(h, shared, mine, &d) != 1 || d != 0.0) bad++; } }
+                GEOSGeom_destroy_r(h, mine);
+            }
+            else if (name == "hasz") { if (t % 2) { if (GEOSGeom_getCoordinateDimension_r(h, shared) != 3) bad++; } else { GEOSGeom_getCoordinateDimension_r(h, shared); if (GEOSHasZ_r(h, shared) != 1) bad++; } }
             else { if (GEOSGeom_getDimensions_r(h, shared) != 2) bad++; if (GEOSHasZ_r(h, shared) != 0) bad++; }
             barrier(my);     // everybody done, main may destroy it
         }
@@ -203,7 +216,10 @@ static int lazyRounds(const std::string& name, int T, long rounds) {
     });
     long my = 0; Rng r(5);
     for (long i = 0; i < rounds; i++) {
-        if (name == "hasz") {   // sequence created with unknown dimension (dims = 0): m_hasdim / m_hasz are filled lazily by const getters
+        if (name == "freshread") {
+            const unsigned n = 400000; std::vector<double> buf(2 * (size_t) n); for (unsigned k = 0; k < n; k++) { buf[2 * k] = (double) k; buf[2 * k + 1] = (double) (k % 2); }
+            shared = GEOSGeom_createLineString_r(H0, GEOSCoordSeq_copyFromBuffer_r(H0, buf.data(), n, 0, 0));
+        } else if (name == "hasz") {   // sequence created with unknown dimension (dims = 0): m_hasdim / m_hasz are filled lazily by const getters
             GEOSCoordSequence* cs = GEOSCoordSeq_create_r(H0, 3, 0);
             for (unsigned k = 0; k < 3; k++) GEOSCoordSeq_setXYZ_r(H0, cs, k, k, k * 2.0, 5.0);
             shared = GEOSGeom_createLineString_r(H0, cs);
@@ -217,6 +233,7 @@ static int lazyRounds(const std::string& name, int T, long rounds) {
 }
 
 static int scenario(const std::string& name, int T, long iters) {
+    if (name == "freshread") return lazyRounds(name, T, std::max(1L, iters));
     if (name == "hasz" || name == "gcflags") return lazyRounds(name, T, std::max(1L, iters / 20));
     std::vector<std::thread> th; std::atomic<int> go{0}; std::atomic<long> bad{0};
     GEOSGeometry* sharedSeqGeom = nullptr; GEOSGeometry* sharedGC = nullptr;
